@@ -603,6 +603,29 @@ def run(ck: Check):
                 if b0 is not None and not same:
                     ck.violation(dict(clause="dtype-independence", distance=name, dtype=dt.__name__), dict(what="the distance of the same integer values differs when the arrays have another dtype", distance=name, dtype=dt.__name__, value=v, as_float64=b0, X=Xi.tolist(), Y=Yi.tolist(), num_bins=nb))
         ck.case(dict(family="dtypes", n=len(Xi), m=len(Yi), num_bins=nb), nontrivial=True, key=repr(("dtypes", Xi.tolist(), Yi.tolist(), nb)))
+    # num_bins assigned through the public setter after construction: compare must use the new value
+    for k in range(4 if not thorough else 20):
+        nb0, nb1 = rng.choice([(40, 4), (10, 3), (2, 17), (5, 9)])
+        Xs = _np.array([rng.gauss(0, 1) for _ in range(rng.choice([20, 45]))])
+        Ys = _np.array([rng.gauss(0.7, 1.3) for _ in range(rng.choice([15, 30]))])
+        for name, cls in _classes().items():
+            if name in ("EMD", "Energy"):
+                continue
+            try:
+                d1 = cls(num_bins=nb0)
+                d1.num_bins = nb1
+                d1.fit(X=Xs)
+                v1 = float(d1.compare(X=Ys)[0].distance)
+                d2 = cls(num_bins=nb1)
+                d2.fit(X=Xs)
+                v2 = float(d2.compare(X=Ys)[0].distance)
+            except Exception as e:  # noqa: BLE001
+                ck.violation(dict(clause="raises", distance=name, scenario="num_bins-setter"), dict(distance=name, num_bins=(nb0, nb1), error=repr(e)))
+                continue
+            ck.count("num_bins_setter_runs")
+            if not ((math.isinf(v1) and math.isinf(v2)) or (math.isnan(v1) and math.isnan(v2)) or abs(v1 - v2) <= 1e-12 * max(1.0, abs(v2))):
+                ck.violation(dict(clause="num_bins-setter", distance=name), dict(what="after `detector.num_bins = k` the distance differs from that of a detector constructed with num_bins=k", distance=name, constructed_with=nb0, assigned=nb1, value=v1, expected=v2, X=Xs.tolist(), Y=Ys.tolist()))
+        ck.case(dict(family="num_bins-setter", constructed_with=nb0, assigned=nb1), nontrivial=True, key=repr(("nbset", nb0, nb1, Xs.tolist()[:3])))
     for i in range(ncases):
         fam, X, Y, nb = gen_pair(rng, thorough and i % 10 == 0)
         c = one_case(ck, fam, X, Y, nb)
